@@ -127,7 +127,7 @@ func (c *pathParser) parsePath(svgPath string) ([]pathItem, error) {
 	data := []byte(svgPath)
 	lastIndex := -1
 	for i, v := range data {
-		if ('a' <= v && v <= 'z' || 'A' <= v && v <= 'Z') && v != 'e' {
+		if ('a' <= v && v <= 'z' || 'A' <= v && v <= 'Z') && v != 'e' && v != 'E' {
 			if lastIndex != -1 {
 				if err := c.addSeg(data[lastIndex:i]); err != nil {
 					return nil, err
